@@ -99,6 +99,8 @@ class _StrOps(ast.NodeTransformer):
 def _pysx_m(obj, name, *args, **kw):
     if isinstance(obj, str):
         from .strs import SymStr, elems
+        if name == "join" and len(args) == 1 and not isinstance(args[0], (str, tuple, list, SymStr)):
+            args = (list(args[0]),)            # a generator / other iterable: look at the items once
         if any(isinstance(a, SymStr) or (isinstance(a, (tuple, list)) and any(isinstance(x, SymStr) for x in a))
                for a in args):
             if name == "format":
